@@ -223,6 +223,19 @@ def writers_copy_lxml_values(ctx, rule, used_in=None, floor=3):
                        f'{ci.name}: {unparse(c)} attaches the value\'s own lxml elements - lxml moves them: the instance '
                        f'(and any tree written before) loses them, a second write produces different output', fi=wr, node=c)
     ctx.floor(rule, n_att, floor, 'lxml attach sites in writers')
+    # ... and the copy helpers they rely on return a new element on every path (never the element they were given)
+    for hq in ('sdc11073.xml_utils.copy_node_wo_parent', 'sdc11073.xml_utils.copy_element'):
+        hf = repo.funcs.get(hq)
+        if hf is None:
+            continue
+        params_ = {a.arg for a in hf.node.args.args}
+        rets_ = [r.value for r in walk_no_nested(hf.node) if isinstance(r, ast.Return) and r.value is not None]
+        same = [unparse(v) for v in rets_ if isinstance(v, ast.Name) and v.id in params_]
+        ctx.ob(rule, f'{hf.name} returns a new element', bool(rets_) and not same,
+               f'{hf.name} returns a newly built element on every path' if rets_ and not same else
+               f'{hf.name} returns its argument itself on some path ({same}): the writers attach that element to the output tree - '
+               f'lxml moves it there, the value object and everything parsed from the written tree share the same elements',
+               fi=hf)
 
 
 def run(ctx):  # noqa: C901, PLR0912, PLR0915
@@ -433,6 +446,9 @@ def run(ctx):  # noqa: C901, PLR0912, PLR0915
 
     from . import common
     common.implied_value_only_for_none(ctx, 'C05.R2')
+    common.readers_catch_only_absence(ctx, 'C05.R2')
+    common.qnames_resolved_in_their_own_scope(ctx, 'C05.R5')
+    ctx.borrow('C18', {'C18.R4'}, 'C05.R2', contains=['boolean: 1 and true', 'enum literals', 'integer lexical'], why='legal lexical forms are read as the value they denote')
     from .c18 import decimal_lexical_rules
     decimal_lexical_rules(ctx, 'C05.R2')   # xsd:decimal values survive the writer (18 significant digits)
     from .c18 import exponent_never_written
@@ -531,6 +547,9 @@ _PM = 'src/sdc11073/xml_types/pm_types.py'
 _X = 'src/sdc11073/xml_types/xml_structure.py'
 _SC = 'src/sdc11073/mdib/statecontainers.py'
 SEEDS = [
+    seed('xsi:type resolved with the namespace map of the parent again (the defect repaired by 8f716c5)', 'C05.R5',
+         ('src/sdc11073/xml_types/xml_structure.py', "                node_type = text_to_qname(node_type_str, sub_node.nsmap)",
+          "                node_type = text_to_qname(node_type_str, node.nsmap)")),
     seed('CodedValue: two child elements swapped in _props', 'C05.R1',
          (_PM, "        'ExtExtension',\n        'CodingSystemName',\n        'ConceptDescription',\n        'Translation',\n        'Code',", "        'ExtExtension',\n        'ConceptDescription',\n        'CodingSystemName',\n        'Translation',\n        'Code',")),
     seed('attribute renamed', 'C05.R1',
